@@ -104,4 +104,63 @@ def lazyGetCore2 [Inhabited α] (L : Lazy2 α) (ix : List Ix) : Option (LRes2 α
 def lazyGet2 [Inhabited α] (L : Lazy2 α) (ix : List Ix) : Option (LRes2 α) :=
   (convertEllipsis ix L.batch.length).bind (lazyGetCore2 L)
 
+/-! ### shape operations on a stack of stacks
+
+The outer code is the one-level code (`_unsqueeze`, `_transpose`, `_permute`, _lazy.py); the members'
+`unsqueeze` / `permute` / `transpose` are the lazy ones again. -/
+
+/-- `LazyStackedTensorDict(*items, stack_dim=dim)` / `lazy_stack(items, dim)` over lazy stacks -/
+def lazyStack2 (items : List (Lazy α)) (dim : Nat) : Option (Lazy2 α) :=
+  match items with
+  | [] => none
+  | m :: rest =>
+    if m.batch.length < dim then none
+    else if rest.all (fun m' => m'.batch == m.batch) then some ⟨items, dim⟩
+    else none
+
+/-- mirrors `_unsqueeze` over members that are lazy stacks -/
+def lazyUnsqueeze2 (L : Lazy2 α) (dim : Int) : Option (Lazy2 α) :=
+  let r : Int := L.batch.length
+  let nd : Int := if dim < 0 then r + dim + 1 else dim
+  if nd > r ∨ nd < 0 then none
+  else if nd.toNat > L.sd then
+    (allSome (L.members.map fun Li => lazyUnsqueeze Li ((nd.toNat - 1 : Nat) : Int))).bind fun ms => lazyStack2 ms L.sd
+  else
+    (allSome (L.members.map fun Li => lazyUnsqueeze Li (nd.toNat : Int))).bind fun ms => lazyStack2 ms (L.sd + 1)
+
+/-- mirrors `_permute` over members that are lazy stacks -/
+def lazyPermute2 (L : Lazy2 α) (dims : List Int) : Option (Lazy2 α) :=
+  let r := L.batch.length
+  let dl : List Int := dims.map fun d => if d ≥ 0 then d else (r : Int) + d
+  if dl.any (fun d => d < 0 ∨ d ≥ r) ∨ dl.length ≠ r then none else
+  let p : List Nat := dl.map Int.toNat
+  if (List.range r).any (fun j => !p.contains j) ∨ ¬ p.Nodup then none else
+  let newSd := p.idxOf L.sd
+  let p' := (p.filter (· != L.sd)).map fun d => if d < L.sd then d else d - 1
+  (allSome (L.members.map fun Li => lazyPermute Li (p'.map fun (d : Nat) => (d : Int)))).bind fun ms => lazyStack2 ms newSd
+
+/-- mirrors `transpose` + `_transpose` over members that are lazy stacks (the far swap rolls the
+dims of the inner stacks with their own `permute`) -/
+def lazyTranspose2 (L : Lazy2 α) (dim0 dim1 : Int) : Option (Lazy2 α) :=
+  let r : Int := L.batch.length
+  let a0 : Int := if dim0 < 0 then r + dim0 else dim0
+  let b0 : Int := if dim1 < 0 then r + dim1 else dim1
+  if a0 < 0 ∨ b0 < 0 ∨ a0 ≥ r ∨ b0 ≥ r then none
+  else
+    let a := (min a0 b0).toNat
+    let b := (max a0 b0).toNat
+    let inner (p : List Nat) (sd' : Nat) : Option (Lazy2 α) :=
+      (allSome (L.members.map fun Li => lazyPermute Li (p.map fun (d : Nat) => (d : Int)))).bind fun ms => lazyStack2 ms sd'
+    if a = b then some L
+    else if a = L.sd then
+      if b = a + 1 then lazyStack2 L.members b
+      else inner (rollPerm (r.toNat - 1) (b - 1) a) b
+    else if b = L.sd then
+      if a + 1 = b then lazyStack2 L.members a
+      else inner (rollPerm (r.toNat - 1) a (b - 1)) a
+    else
+      let a' := if a < L.sd then a else a - 1
+      let b' := if b < L.sd then b else b - 1
+      (allSome (L.members.map fun Li => lazyTranspose Li (a' : Int) (b' : Int))).bind fun ms => lazyStack2 ms L.sd
+
 end TdVerif.C08
